@@ -262,3 +262,20 @@ pub fn file_kind(path: &str) -> String {
     }
     out
 }
+
+/// Do two artifact paths `Type/field/file` differ only in where the `/` between type and field
+/// falls, so that `Type__field` is the same identifier (`User/a__b/x` vs `User__a/b/x`)?
+pub fn collapses_to_same_identifier(path_a: &str, path_b: &str) -> bool {
+    fn type_field(p: &str) -> Option<String> {
+        let mut parts: Vec<&str> = p.split('/').collect();
+        if parts.len() != 3 {
+            return None;
+        }
+        parts.pop();
+        Some(parts.join("__"))
+    }
+    match (type_field(path_a), type_field(path_b)) {
+        (Some(a), Some(b)) => a == b && path_a != path_b,
+        _ => false,
+    }
+}
